@@ -7,11 +7,14 @@ VERIF*/
 #ifdef VERIF_PRE
 extern const volatile void *H_state_p; extern unsigned long long H_state_now;
 #define __VERIF_RELY(p, v) ((const volatile void *)(p) != H_state_p || (unsigned long long)(v) == H_state_now)
+/* ghost: does the drainer still hold IN_BARRIER in the state word?  A commit of this drain that flips the bit gives the barrier up */
+extern _Bool H_drainer_in_barrier;
+#define __VERIF_GUARANTEE(p, ov, nv, mo) (((const volatile void *)(p) == H_state_p && ((((unsigned long long)(ov)) ^ ((unsigned long long)(nv))) & 0x0040000000000000ull)) ? (H_drainer_in_barrier = 0, 1) : 1)
 #else
 #include "contracts/common/dq_common.h"
 const volatile void *H_state_p; unsigned long long H_state_now;
 struct dispatch_continuation_s H_items[3]; unsigned H_nitems, H_pos; struct dispatch_lane_s H_tq0, H_tq1;
-unsigned H_runs, H_redirects, H_reader_wakes; _Bool H_bad_run, H_bad_pop, H_serial; uint64_t H_owned_now_barrier; _Bool H_upgraded, H_have_reader_width, H_last_was_barrier;
+unsigned H_runs, H_redirects, H_reader_wakes; _Bool H_bad_run, H_bad_pop, H_serial; uint64_t H_owned_now_barrier; _Bool H_upgraded, H_have_reader_width, H_last_was_barrier; _Bool H_drainer_in_barrier, H_reader_under_barrier;
 struct dispatch_invoke_context_s H_dic;
 static inline void _dispatch_thread_frame_push(dispatch_thread_frame_t dtf, dispatch_queue_class_t dqu) { (void)dtf; (void)dqu; }
 static inline void _dispatch_thread_frame_pop(dispatch_thread_frame_t dtf) { (void)dtf; }
@@ -23,11 +26,11 @@ static inline struct dispatch_object_s *_dispatch_queue_pop_head(dispatch_lane_c
 static inline bool _dispatch_needs_to_return_to_kernel(void) { return false; }
 /* the marker is not an object: no queue state may be read through it (C03: hierarchies whose bottom is a work loop) */
 static inline dispatch_qos_t _dispatch_queue_max_qos(dispatch_queue_class_t dq) { VERIF_ASSERT(a_work_loop_is_only_consulted_when_the_thread_is_bound_to_one, (void *)dq._dq != (void *)DISPATCH_WLH_ANON); return ND(dispatch_qos_t) & 7; }
-static inline bool _dispatch_queue_try_upgrade_full_width(dispatch_lane_t dq, uint64_t owned) { (void)dq; (void)owned; H_upgraded = ND_BOOL(); return H_upgraded; }
+static inline bool _dispatch_queue_try_upgrade_full_width(dispatch_lane_t dq, uint64_t owned) { (void)dq; (void)owned; H_upgraded = ND_BOOL(); if (H_upgraded) H_drainer_in_barrier = 1; return H_upgraded; }
 static inline void _dispatch_queue_reserve_sync_width(dispatch_lane_t dq) { (void)dq; H_have_reader_width = 1; }
 static inline bool _dispatch_queue_try_acquire_async(dispatch_lane_t dq) { (void)dq; H_have_reader_width = ND_BOOL(); return H_have_reader_width; }
-static void _dispatch_non_barrier_waiter_redirect_or_wake(dispatch_lane_t dq, dispatch_object_t dou) { (void)dq; (void)dou; H_reader_wakes++; H_last_was_barrier = 0; if (S_SUSPENDED(H_state_now) || dq->do_targetq != (dispatch_queue_t)&H_tq0) H_bad_run = 1; }
-static void _dispatch_continuation_redirect_push(dispatch_lane_t dl, dispatch_object_t dou, dispatch_qos_t qos) { (void)dl; (void)dou; (void)qos; H_redirects++; H_last_was_barrier = 0; if (S_SUSPENDED(H_state_now) || dl->do_targetq != (dispatch_queue_t)&H_tq0) H_bad_run = 1; }
+static void _dispatch_non_barrier_waiter_redirect_or_wake(dispatch_lane_t dq, dispatch_object_t dou) { (void)dq; (void)dou; H_reader_wakes++; H_last_was_barrier = 0; if (!H_serial && H_drainer_in_barrier) H_reader_under_barrier = 1; if (S_SUSPENDED(H_state_now) || dq->do_targetq != (dispatch_queue_t)&H_tq0) H_bad_run = 1; }
+static void _dispatch_continuation_redirect_push(dispatch_lane_t dl, dispatch_object_t dou, dispatch_qos_t qos) { (void)dl; (void)dou; (void)qos; H_redirects++; H_last_was_barrier = 0; if (!H_serial && H_drainer_in_barrier) H_reader_under_barrier = 1; if (S_SUSPENDED(H_state_now) || dl->do_targetq != (dispatch_queue_t)&H_tq0) H_bad_run = 1; }
 /* AN ITEM STARTS RUNNING on this queue, in this drain */
 static inline void _dispatch_continuation_pop_inline(dispatch_object_t dou, dispatch_invoke_context_t dic, dispatch_invoke_flags_t flags, dispatch_queue_class_t dqu)
 {
@@ -61,6 +64,9 @@ VERIF_CONTRACT(dispatch_queue_wakeup_target_t, _dispatch_lane_drain, (dispatch_l
    * ran): giving back a stale width leaves the width accounting of the queue wrong for every later reader and dispatch_apply */
   ENS(a_drain_ending_in_barrier_mode_owns_the_barrier_plus_the_current_width, VIMPL(__CPROVER_return_value == DISPATCH_QUEUE_WAKEUP_NONE && H_runs >= 1 && H_last_was_barrier && !H_serial && H_pos == H_nitems,
         (*owned_ptr & ~(uint64_t)(DISPATCH_QUEUE_ENQUEUED | DISPATCH_QUEUE_ENQUEUED_ON_MGR)) == DISPATCH_QUEUE_IN_BARRIER + (uint64_t)H_lane.dq_width * DISPATCH_QUEUE_WIDTH_INTERVAL))
+  /* C04 / C10: a reader of a concurrent queue - a redirected async item, or a non-barrier sync / dispatch_apply waiter that is woken - is let go only after the
+   * drainer has given up IN_BARRIER in the state word (one release commit): a reader released while the barrier is still held overlaps the barrier items queued behind it */
+  ENS(readers_are_released_only_after_the_drainer_gave_up_the_barrier, !H_reader_under_barrier)
   /* stopping early with items left re-drives the queue on its (current) target: never NULL with work pending */
   ENS(leftover_items_are_redriven, VIMPL(H_pos < H_nitems, __CPROVER_return_value != DISPATCH_QUEUE_WAKEUP_NONE))
 )
@@ -79,11 +85,13 @@ void harness(void)
 	 * the work loop, its wlh is the DISPATCH_WLH_ANON marker */
 	__dispatch_tsd.dispatch_wlh_key = (void *)DISPATCH_WLH_ANON;
 	uint64_t owned = ND(uint64_t);
+	H_drainer_in_barrier = H_serial || (owned & DISPATCH_QUEUE_IN_BARRIER) != 0; H_reader_under_barrier = 0;
 	VERIF_PRE_CALL(_dispatch_lane_drain, 0, H_DQ, &H_dic, flags, &owned, H_serial);
 	dispatch_queue_wakeup_target_t r = _dispatch_lane_drain(H_DQ, &H_dic, flags, &owned, H_serial);
 	VERIF_POST(_dispatch_lane_drain, r, H_DQ, &H_dic, flags, &owned, H_serial);
 	VERIF_REACH(ran_three, H_runs == 3);
 	VERIF_REACH(stopped_by_suspension, H_runs == 1 && H_pos == 1 && H_nitems == 3 && S_SUSPENDED(H_state_now));
+	VERIF_REACH(reader_released_after_barrier_mode, !H_serial && (H_redirects + H_reader_wakes) >= 1 && !H_drainer_in_barrier && H_runs >= 1);
 	VERIF_REACH(handoff, H_dic.dic_barrier_waiter != 0);
 	VERIF_CANARY();
 }
